@@ -49,11 +49,11 @@ def baseline(rev, pids):
 def one(args):
     seed_dir, pids = args
     from nc_static.source import read_tree
-    for rev in ("WORKTREE", ORIG_REV):
+    for rev in ("WORKTREE",):
         tmp = tempfile.mkdtemp(prefix="ncseed-")
         try:
             make_base(tmp, rev)
-            r = subprocess.run(["patch", "-p1", "-s", "--no-backup-if-mismatch", "-i", os.path.join(seed_dir, "patch.diff")], cwd=tmp, capture_output=True, text=True)
+            r = subprocess.run(["git", "apply", os.path.join(seed_dir, "patch.diff")], cwd=tmp, capture_output=True, text=True)
             if r.returncode != 0:
                 continue
             base = baseline(rev, pids)
